@@ -68,11 +68,20 @@ var c08Values = []string{"a", "ab", "abc", "b", "A"}
 var c08ReqValues = []string{"", "a", "ab", "abc", "abcd", "b", "A", "ba"}
 
 func c08Run(c *sim.Case, chains []c08Chain, allowUnmatched bool, headers map[string]string) {
+	c08RunSeq(c, chains, allowUnmatched, []map[string]string{headers}, false)
+}
+
+// c08RunSeq sends several requests to ONE filter instance (state kept between requests must not matter);
+// sameNames gives every chain the same name (names need not be unique).
+func c08RunSeq(c *sim.Case, chains []c08Chain, allowUnmatched bool, reqs []map[string]string, sameNames bool) {
 	cfg := &configv1.Config{AllowUnmatchedRequests: allowUnmatched}
 	fac := c08Factory{stores: map[string]*sim.SpyStore{}}
 	clk := sim.NewVClock()
 	for ci, ch := range chains {
 		fc := &configv1.FilterChain{Name: fmt.Sprintf("chain-%d", ci)}
+		if sameNames {
+			fc.Name = "chain"
+		}
 		switch ch.Crit {
 		case 1:
 			fc.Match = &configv1.Match{Header: ch.Header, Criteria: &configv1.Match_Equality{Equality: ch.Value}}
@@ -100,64 +109,70 @@ func c08Run(c *sim.Case, chains []c08Chain, allowUnmatched bool, headers map[str
 	defer cancel()
 	tls := internal.NewTLSConfigPool(ctx)
 	f := server.NewExtAuthZFilter(cfg, tls, oidc.NewJWKSProvider(cfg, tls), fac)
-	resp, err := f.Check(context.Background(), sim.Req{Scheme: "https", Host: "app.test", Path: "/x", Headers: headers}.Envoy())
-	if err != nil {
-		c.Violation("check-error", "chains=%v headers=%v: %v", chains, headers, err)
-	}
-	wantAllow, judge, ran, denier := c08Ref(chains, allowUnmatched, headers)
-	r := &sim.Resp{}
-	sim.ParseResp(r, resp)
-	desc := fmt.Sprintf("chains=%v allowUnmatched=%v headers=%v", chains, allowUnmatched, headers)
-	if r.OK != wantAllow {
-		c.Logf("%s", desc)
-		c.Violation("verdict-mismatch", "%s: got %v, the reference evaluator says allow=%v (judging chain %d)", desc, r, wantAllow, judge)
-	}
-	// whose denial?
-	if !wantAllow {
-		switch {
-		case judge < 0:
-			if r.Code != codes.PermissionDenied || r.Denied {
-				c.Violation("unmatched-denial-shape", "%s: unmatched request answered %v", desc, r)
-			}
-		case chains[judge].Filters[denier] == 1:
-			if r.Code != codes.PermissionDenied || r.IsRedirect() {
-				c.Violation("denial-not-the-deniers", "%s: the mock filter %d of chain %d denies, but the response is %v", desc, denier, judge, r)
-			}
-		case chains[judge].Filters[denier] == 2:
-			id := fmt.Sprintf("oidc-%d-%d", judge, denier)
-			if !r.IsRedirect() || !strings.Contains(r.Location(), "/auth/"+id+"?") {
-				c.Violation("denial-not-the-deniers", "%s: OIDC filter %s denies with its login redirect, but the response is %v", desc, id, r)
+	for ri, headers := range reqs {
+		before := map[string]int{}
+		for id, st := range fac.stores {
+			before[id] = st.Len()
+		}
+		resp, err := f.Check(context.Background(), sim.Req{Scheme: "https", Host: "app.test", Path: "/x", Headers: headers}.Envoy())
+		if err != nil {
+			c.Violation("check-error", "chains=%v headers=%v: %v", chains, headers, err)
+		}
+		wantAllow, judge, ran, denier := c08Ref(chains, allowUnmatched, headers)
+		r := &sim.Resp{}
+		sim.ParseResp(r, resp)
+		desc := fmt.Sprintf("chains=%v sameNames=%v allowUnmatched=%v request #%d headers=%v", chains, sameNames, allowUnmatched, ri, headers)
+		if r.OK != wantAllow {
+			c.Logf("%s", desc)
+			c.Violation("verdict-mismatch", "%s: got %v, the reference evaluator says allow=%v (judging chain %d)", desc, r, wantAllow, judge)
+		}
+		// whose denial?
+		if !wantAllow {
+			switch {
+			case judge < 0:
+				if r.Code != codes.PermissionDenied || r.Denied {
+					c.Violation("unmatched-denial-shape", "%s: unmatched request answered %v", desc, r)
+				}
+			case chains[judge].Filters[denier] == 1:
+				if r.Code != codes.PermissionDenied || r.IsRedirect() {
+					c.Violation("denial-not-the-deniers", "%s: the mock filter %d of chain %d denies, but the response is %v", desc, denier, judge, r)
+				}
+			case chains[judge].Filters[denier] == 2:
+				id := fmt.Sprintf("oidc-%d-%d", judge, denier)
+				if !r.IsRedirect() || !strings.Contains(r.Location(), "/auth/"+id+"?") {
+					c.Violation("denial-not-the-deniers", "%s: OIDC filter %s denies with its login redirect, but the response is %v", desc, id, r)
+				}
 			}
 		}
-	}
-	// which observable filters ran?
-	for ci, ch := range chains {
-		for fi, fk := range ch.Filters {
-			if fk != 2 {
-				continue
-			}
-			id := fmt.Sprintf("oidc-%d-%d", ci, fi)
-			active := fac.stores[id].Len() > 0
-			should := ci == judge && fi < len(ran)
-			if active != should {
-				c.Violation("wrong-filter-evaluated", "%s: OIDC filter %s store activity=%v, reference says it runs=%v", desc, id, active, should)
+		// which observable filters ran?
+		for ci, ch := range chains {
+			for fi, fk := range ch.Filters {
+				if fk != 2 {
+					continue
+				}
+				id := fmt.Sprintf("oidc-%d-%d", ci, fi)
+				active := fac.stores[id].Len() > before[id]
+				should := ci == judge && fi < len(ran)
+				if active != should {
+					c.Violation("wrong-filter-evaluated", "%s: OIDC filter %s store activity=%v, reference says it runs=%v", desc, id, active, should)
+				}
 			}
 		}
-	}
-	// non-trivial: >= 2 chains match, or a denial is followed by an observable filter
-	matching := 0
-	for _, ch := range chains {
-		if ok, _, _, _ := c08Ref([]c08Chain{ch}, false, headers); ok || func() bool { _, j, _, _ := c08Ref([]c08Chain{ch}, false, headers); return j == 0 }() {
-			matching++
+		// non-trivial: >= 2 chains match, or a denial is followed by an observable filter
+		matching := 0
+		for _, ch := range chains {
+			if _, j, _, _ := c08Ref([]c08Chain{ch}, false, headers); j == 0 {
+				matching++
+			}
 		}
-	}
-	if matching >= 2 {
-		c.NonTrivial()
-	}
-	if judge >= 0 && denier >= 0 {
-		for _, fk := range chains[judge].Filters[denier+1:] {
-			if fk == 2 {
-				c.NonTrivial()
+		if matching >= 2 {
+			c.NonTrivial()
+		}
+		if judge >= 0 && denier >= 0 {
+			for _, fk := range chains[judge].Filters[denier+1:] {
+				if fk == 2 {
+					c.NonTrivial()
+				}
 			}
 		}
 	}
@@ -200,7 +215,7 @@ func c08Headers(c *sim.Case, small bool) map[string]string {
 func TestC08(t *testing.T) {
 	r := sim.NewRun(t, "C08")
 	defer r.Finish()
-	r.Rule = "chain lists x header maps: each chain has no criterion / equality / prefix on a header named in mixed case and 1-3 filters from {mock allow, mock deny, observable OIDC filter on its own spy store whose denial is its login redirect}; allow_unmatched on/off; request header maps with absent / equal / prefixed / longer / empty / differently-cased values. Exhaustive part: all lists of <=2 chains (<=2 filters each) over the small value sets; random part: up to 4 chains. Oracle: independently written reference evaluator for verdict, denier identity and which filters ran. Non-trivial = at least two chains match the request, or a denial is followed by an observable filter; distinct = distinct (chains, flag, headers)."
+	r.Rule = "chain lists x header maps: each chain has no criterion / equality / prefix on a header named in mixed case and 1-3 filters from {mock allow, mock deny, observable OIDC filter on its own spy store whose denial is its login redirect}; allow_unmatched on/off; request header maps with absent / equal / prefixed / longer / empty / differently-cased values. Exhaustive part: all lists of <=2 chains (<=2 filters each) over the small value sets; random part: up to 4 chains, chain names unique or all equal, 1-3 requests sent to the same filter instance. Oracle: independently written reference evaluator for verdict, denier identity and which filters ran. Non-trivial = at least two chains match the request, or a denial is followed by an observable filter; distinct = distinct (chains, flag, headers)."
 	r.Assumptions = []string{"Envoy lower-cases header names in the request's header map"}
 	exh := func(c *sim.Case) {
 		hv := sim.Pick(c, "reqval", len(c08ReqValues)+1) // first draw: 9 alternatives... combine with flag for 18
@@ -222,7 +237,12 @@ func TestC08(t *testing.T) {
 		for i := 0; i < nch; i++ {
 			chains = append(chains, c08GenChain(c, false))
 		}
-		c08Run(c, chains, sim.Bool(c, "allow-unmatched"), c08Headers(c, false))
+		au := sim.Bool(c, "allow-unmatched")
+		var reqs []map[string]string
+		for i, n := 0, 1+sim.Pick(c, "nreqs", 3); i < n; i++ {
+			reqs = append(reqs, c08Headers(c, false))
+		}
+		c08RunSeq(c, chains, au, reqs, sim.Weighted(c, "same-names", 2, 1) == 1)
 	}
 	parts := map[string]func(*sim.Case){"exhaustive": exh, "random": random}
 	if r.Replay != "" {
